@@ -4,6 +4,16 @@ correspondence suites (name, quick cases, thorough cases), fact obligations."""
 STD_TRUST = []
 
 PROPS = {
+    "C10": {
+        "theorems": ["C10_eval", "C10_evalAll", "C10_evalAny", "C10_complement", "C10_trichotomy", "C10_le_ge", "C10_nil",
+                     "C10_nil_right", "C10_unordered_bool", "C10_unordered_ids", "C10_unknown_op", "C10_impl_independent"],
+        "facts": ["every Go type name of a well-typed value is a case of checkVal's type switch (Facts.checkValCases, regenerated)"],
+        "suites": [("filter", 2500, 120000)],
+        "level_text": "C10_eval: for every well-formed resource view and every well-typed filter tree of any depth, the model of IsAllowed returns exactly the tree read as logic (Spec.eval) - by mutual structural recursion, unbounded. The logical laws of the property (complement, trichotomy on every ordered kind, <=/>= decomposition, nil equals only nil and is never ordered, booleans and to-many sets never ordered, unknown operator allows nothing, independence of the resource implementation) are separate theorems about the specification. checkVal's type switch is read from the source on every run (Facts.checkValCases) and its completeness is a decide-checked obligation. Correspondence: every generated (resource, filter) pair is evaluated by the real IsAllowed on a SoftResource and on a reflect.StructOf-wrapped struct, by the Lean model and by the Lean specification; all three must agree.",
+        "level_note": "Trusted: Lean kernel; standard axioms; mirror of filter.go (IsAllowed, getAttrVal, checkVal, check*), validated by correspondence; bytes.Compare and Go string comparison are modelled as lexicographic order on byte lists; time.Time Equal/Before/After as comparison of (unix seconds, nanoseconds). Ill-typed filters (failed type assertions) are outside the property's domain and are modelled as panics.",
+        "assumptions": ["sort.Strings inside checkSlice sorts (modelled by insertion sort; only the sorted result is used)",
+                        "fmt %T names of the 30 value types are as tabulated in Kind.goName"],
+    },
     "C14": {
         "theorems": ["C14_inv", "C14_lookup", "C14_atomic", "C14_remove_absent", "C14_twoway"],
         "suites": [("schema14", 1500, 60000)],
